@@ -343,8 +343,9 @@ class Recorder:
         rec = self
 
         class RecordingState(ConnectionState):
-            def __init__(self, login, config):
-                super().__init__(_LoginProxy(login, rec.log), config)
+            def __init__(self, login, config, *args, **kwargs):
+                # (a changed tree may pass more to its ConnectionState)
+                super().__init__(_LoginProxy(login, rec.log), config, *args, **kwargs)
                 rec.states.append(self)
 
         self._orig = imap_mod.ConnectionState
